@@ -497,7 +497,12 @@ GotTile(t, tile, d, fromCache) ==
 MissEv(t, f) == [op |-> "ReadCache", t |-> t, file |-> f, hit |-> FALSE, fault |-> FALSE, lab |-> [kind |-> "miss", tl |-> "P", pos |-> 0]]
 \* the cache reads that miss before the network is asked for a tile
 Misses(t, tile) == <<MissEv(t, TileFile(tile))>> \o (IF tile # FullOf(tile) THEN <<MissEv(t, TileFile(FullOf(tile)))>> ELSE <<>>)
-PrefixData(x, w) == IF ~x.ok THEN x ELSE [x EXCEPT !.d = SubSeq(x.d, 1, (Len(x.d) \div Pow2(H)) * w)]
+\* the client keeps the first len/W*w bytes of what it got for the full tile: the wanted prefix when the data has the
+\* length of a full tile; a piece that is not a whole number of hashes (hence never the right length) otherwise -
+\* modelled as the empty sequence, which the length check of the hash reader refuses like any other wrong length
+PrefixData(x, w) == IF ~x.ok THEN x
+                    ELSE IF Len(x.d) = Pow2(H) THEN [x EXCEPT !.d = SubSeq(x.d, 1, w)]
+                    ELSE [x EXCEPT !.d = <<>>]
 DiskLab == Lab("disk", "P", 0)
 TrFetch(t) ==
     /\ pc[t] = "tr_fetch"
